@@ -210,6 +210,7 @@ func runParent(e *Engine, tier string, seed uint64, par int) int {
 		par = 16
 	}
 	os.MkdirAll(filepath.Join(VerifDir, ".work"), 0o755)
+	os.Remove(filepath.Join(VerifDir, ".work", e.ID+".last_violations.json"))
 	work, err := os.MkdirTemp(filepath.Join(VerifDir, ".work"), e.ID+".")
 	if err != nil {
 		fmt.Printf("INCONCLUSIVE property=%s reason=workdir:%v\n", e.ID, err)
@@ -337,6 +338,11 @@ func runParent(e *Engine, tier string, seed uint64, par int) int {
 		fmt.Printf("KNOWN-FINDING: property=%s id=%s hits=%d %s\n", e.ID, f.ID, knownHit[f.ID], f.Text)
 	}
 	replayDir := filepath.Join(VerifDir, "replays", e.ID)
+	if old, _ := filepath.Glob(filepath.Join(replayDir, fmt.Sprintf("%s-s%d-*.json", tier, seed))); len(old) > 0 {
+		for _, f := range old {
+			os.Remove(f)
+		}
+	}
 	if len(fresh) > 0 {
 		os.MkdirAll(replayDir, 0o755)
 	}
